@@ -301,6 +301,10 @@ func runTask(n *p2penv.Node, ts taskSpec, logDir string) taskOut {
 	}
 	pass1 += int64(len(stallPeers)) * 10
 	bound := 30*time.Second + 2*time.Duration(pass1+pass2)*time.Second
+	if ts.Kind == "slot-starvation" {
+		// first pass: 20 s of retries + one reply delay; re-download pass: one reply delay per starved height (up to two rounds of 20)
+		bound = 30*time.Second + 2*time.Duration(25+45*5)*time.Second
+	}
 	to.BoundMs = bound.Milliseconds()
 	seq0 := int64(0)
 	if ps := n.Chain.Snapshot(0); len(ps) > 0 {
